@@ -1,7 +1,16 @@
 (* C04 -- the pipeline terminates under every schedule and input: no lost wake-up, no deadlock,
-   and a bound on the number of steps of any execution (explicit form: C04_bounded_steps_explicit_proof,
-   8(m+T) + (T+9) + 6*blocks + 10T).
-   Assumption (stated in DESIGN): condition variables have no spurious wake-ups. *)
+   and a bound on the number of steps of any execution.
+   Spurious wake-ups of cv.wait (allowed by the C++ standard) are part of the model: a schedule is a list of
+   thread ids where 0..T are the real threads and T+1+j means "thread j returns from cv.wait without a
+   notification" (PipeConc.spurious); it may contain such actions at any point.  The former
+   assumption "condition variables have no spurious wake-ups" is gone.  The woken thread re-tests its predicate (the `while` around cv.wait) and
+   goes back to sleep if it is false, so a schedule can be arbitrarily long (wake, re-test, sleep, wake, ...);
+   what is bounded is everything else: every spurious wake-up costs itself plus at most one more step,
+       length sched <= B + 2 * spurious_count T sched
+   with the same explicit B as for schedules without spurious wake-ups (C04_bounded_steps_explicit_proof:
+   B = 8(m+T) + (T+9) + 6*blocks + 10T).  Fairness reading: a schedule that performs only finitely many
+   spurious wake-ups is finite, and by deadlock freedom ([enabled] speaks of the real threads only) every
+   maximal such execution ends in the terminal state. *)
 From Wencry Require Import Bytes FileModel PipeConc PipeProps PipeProofs.
 From Wencry Require PipeSync.
 From Wencry.Gen Require Sync.
@@ -27,18 +36,29 @@ Theorem C04_deadlock_free : forall T sigma0 ls s,
   terminal S s = false -> exists tid, enabled S tr tr_event c ispadding s tid = true.
 Proof. exact (C04_deadlock_free_proof S tr tr_event c ispadding). Qed.
 
-(* every execution is finite: an explicit bound on the number of steps of ANY schedule, from a
-   potential that strictly decreases at every step (a woken thread never goes back to sleep).
-   With deadlock freedom: every maximal execution ends in the terminal state. *)
+(* an explicit bound on the number of steps of ANY schedule, up to the spurious wake-ups it contains: a
+   potential that strictly decreases at every step of a real thread and increases by at most 1 at a spurious
+   wake-up (PipeTerm.v).  With deadlock freedom: every maximal execution with finitely many spurious
+   wake-ups ends in the terminal state. *)
 Theorem C04_bounded_steps : forall T sigma0 ls,
   1 <= T -> length sigma0 = T -> wf_loads ls ->
   exists B, forall sched s,
-    run S tr tr_event c ispadding (init S T sigma0 ls) sched = Some s -> length sched <= B.
+    run S tr tr_event c ispadding (init S T sigma0 ls) sched = Some s ->
+    length sched <= B + 2 * spurious_count T sched.
 Proof. exact (C04_bounded_steps_proof S tr tr_event c ispadding). Qed.
+
+(* corollary: the statement for schedules of the real threads only *)
+Theorem C04_bounded_steps_without_spurious : forall T sigma0 ls,
+  1 <= T -> length sigma0 = T -> wf_loads ls ->
+  exists B, forall sched s,
+    run S tr tr_event c ispadding (init S T sigma0 ls) sched = Some s ->
+    (forall t, In t sched -> t <= T) -> length sched <= B.
+Proof. exact (C04_bounded_steps_without_spurious_proof S tr tr_event c ispadding). Qed.
 End C04.
 Print Assumptions C04_no_lost_wakeup.
 Print Assumptions C04_deadlock_free.
 Print Assumptions C04_bounded_steps.
+Print Assumptions C04_bounded_steps_without_spurious.
 
 (* the functions of the hand-over protocol, as clang reads the CURRENT sources, are textually the ones the transition system
    was written from (regenerated on every run; see PipeSync.v) *)
